@@ -458,6 +458,58 @@ func c37Generalise(r *vh.Rand, path string) string {
 	return p
 }
 
+// nested groups whose alternatives share a prefix of alternatives: {{X},{X,y}}, {{X,y},{X}}, {p{X},p{X,y}} ... together with
+// paths that only the extra alternative y matches (duplicate-alternative removal must not drop an alternative that merely
+// extends an earlier one)
+func c37NestedFamily(r *vh.Rand) c37In {
+	pool := []string{"a", "b", "jpg", "png", "x*", "c/d", "?", "ab", "\\*"}
+	extra := []string{"gif", "c", "zz", "q*", "a/b", "abc"}
+	perm := r.Perm(len(pool))
+	k := r.Range(1, 3)
+	var xs []string
+	for _, i := range perm[:k] {
+		xs = append(xs, pool[i])
+	}
+	y := extra[r.Intn(len(extra))]
+	short := "{" + strings.Join(xs, ",") + "}"
+	var long string
+	switch r.Intn(4) {
+	case 0:
+		long = "{" + strings.Join(append([]string{y}, xs...), ",") + "}" // y first: not an extension
+	default:
+		long = "{" + strings.Join(append(append([]string{}, xs...), y), ",") + "}"
+	}
+	pre := r.Pick([]string{"", "", "*.", "f", "x/"})
+	a, b := pre+short, pre+long
+	ypath := y
+	if r.Chance(1, 3) && k > 1 {
+		// the later alternative extends the earlier one as a SEQUENCE: p{X} and p{X}s (s a literal or another group)
+		suf := r.Pick([]string{"z", "/k", "{u,v}", ".gif"})
+		b = pre + short + suf
+		ypath = xs[0] + strings.NewReplacer("{u,v}", "v").Replace(suf)
+	}
+	if r.Chance(1, 3) {
+		a, b = b, a
+	}
+	head := r.Pick([]string{"/foo/", "/", "/Pictures/", "/a/b/"})
+	tail := r.Pick([]string{"", "", "/x", "/**", ".bak"})
+	var group string
+	switch r.Intn(4) {
+	case 0:
+		group = "{" + a + "," + b + "," + r.Pick([]string{"k", "", short}) + "}"
+	default:
+		group = "{" + a + "," + b + "}"
+	}
+	pat := head + group + tail
+	var ps []string
+	for _, z := range append(append([]string{}, xs...), y) {
+		q := c37Clean(c37Instantiate(r, head+pre+z+tail))
+		ps = append(ps, q)
+	}
+	ps = append(ps, c37Clean(c37Instantiate(r, head+pre+ypath+tail)), c37Clean(c37Instantiate(r, head+pre+ypath+tail)+"/"), "/foo")
+	return c37In{Kind: "pat", Pattern: pat, Paths: ps}
+}
+
 func c37Gen(r *vh.Rand, tier string, n int) []c37In {
 	if n == 0 {
 		n = 600
@@ -472,6 +524,16 @@ func c37Gen(r *vh.Rand, tier string, n int) []c37In {
 		}
 		ins = append(ins, c37In{Kind: "pat", Pattern: p, Paths: paths})
 	}
+	// fixed members of the nested-group family
+	ins = append(ins,
+		c37In{Kind: "pat", Pattern: "/foo/{{a,b},{a,b,c}}", Paths: []string{"/foo/a", "/foo/b", "/foo/c", "/foo/d", "/foo/c/"}},
+		c37In{Kind: "pat", Pattern: "/foo/{{a,b,c},{a,b}}", Paths: []string{"/foo/a", "/foo/c"}},
+		c37In{Kind: "pat", Pattern: "/Pictures/{*.{jpg,png},*.{jpg,png,gif}}", Paths: []string{"/Pictures/x.jpg", "/Pictures/x.gif", "/Pictures/x.gif/", "/Pictures/x.bmp"}},
+		c37In{Kind: "pat", Pattern: "/{{a},{a,b}}/x", Paths: []string{"/a/x", "/b/x"}},
+		c37In{Kind: "pat", Pattern: "/{a{b,c},a{b,c,d},a{b}}", Paths: []string{"/ab", "/ad", "/ac"}},
+		c37In{Kind: "pat", Pattern: "/foo/{a{b,c},a{b,c}d}", Paths: []string{"/foo/ab", "/foo/abd", "/foo/acd"}},
+		c37In{Kind: "pat", Pattern: "/foo/{x{b,c}{d,e},x{b,c}}", Paths: []string{"/foo/xb", "/foo/xbd", "/foo/xce"}},
+		c37In{Kind: "pat", Pattern: "/{{a,b}/*,{a,b}/*{.jpg,.png}}", Paths: []string{"/a/x", "/b/x.png"}})
 	// exhaustive small scope: `/` followed by <= k tokens, every clean path of length <= 4 over a b /
 	k := 3
 	if tier == "thorough" {
@@ -485,6 +547,8 @@ func c37Gen(r *vh.Rand, tier string, n int) []c37In {
 		switch {
 		case j%10 == 9:
 			ins = append(ins, c37In{Kind: "pat", Pattern: c37Malformed(r)})
+		case j%10 == 4:
+			ins = append(ins, c37NestedFamily(r))
 		case j%2 == 0:
 			p := c37Pattern(r)
 			var ps []string
